@@ -45,7 +45,8 @@ class Obj(object):
 # ---- a column object as the assigned value -------------------------------------------------------------------
 # how the target table (3 rows, column k = row number, column c of the kind under test) came to be
 CV_STATES = ['fresh', 'cat', 'catL', 'catR', 'catRow', 'catEmptySelR', 'catEmptyDMR', 'catEmptyLen0R',
-             'catEmptyDictR', 'catEmptyColsDictR', 'catEmptySelL', 'catEmptyDML', 'catEmptyTwice', 'slice', 'select']
+             'catEmptyDictR', 'catEmptyColsDictR', 'catEmptySelL', 'catEmptyDML', 'catEmptyTwice', 'slice', 'select',
+             'resizeSame', 'grown', 'shrunk', 'shrunkGrown', 'sorted', 'rowDeleted']
 # how the column object is written -> the form of Model/C05Paths.v
 CV_FORMS = {'SliceAll': 'FSlice', 'Slice0n': 'FSlice', 'SlicePart': 'FSlice', 'SeqKey': 'FSeqKey',
             'SeqKeyPerm': 'FSeqKey', 'DmKey': 'FSeqKey', 'SetAttr': 'FSetCol', 'SetItem': 'FSetCol',
@@ -355,6 +356,33 @@ class C05:
         if state == 'select':
             a = base(5)
             return a.k >= 2
+        if state == 'resizeSame':
+            a = base(3)
+            a.length = 3                  # a resize to the length the table already has
+            return a
+        if state == 'grown':
+            a = base(2)
+            a.length = 3
+            a.k = [0, 1, 2]
+            return a
+        if state == 'shrunk':
+            a = base(5)
+            a.length = 3
+            return a
+        if state == 'shrunkGrown':
+            a = base(4)
+            a.length = 1
+            a.length = 3
+            a.k = [0, 1, 2]
+            return a
+        if state == 'sorted':
+            from datamatrix import operations as ops
+            a = base(3)
+            return ops.sort(a, by=a.k)
+        if state == 'rowDeleted':
+            a = base(4)
+            del a[3]
+            return a
         raise AssertionError(state)
 
     def _source(self, dm, src, v):
@@ -696,7 +724,7 @@ class C05:
                 if c is not None:
                     cases.append(c)
         # plain values written into tables in every state
-        after_values = [1.0, ' 4.50 ', 'abc', None, np.float64(2.0), Obj()]
+        after_values = [1.0, ' 4.50 ', 'abc', None, np.float64(2.0), Obj(), 2 ** 53 + 1, '9007199254740993', -(2 ** 62) - 3]
         for kind in KINDS:
             for state in CV_STATES:
                 if state == 'fresh':
